@@ -655,6 +655,43 @@ func c09ExitConditions(c *Ctx, r *Result) {
 				}
 			}
 		})
+		// the loop may live in a helper of the package (waitForWorkerCount(count)): analyse the helper,
+		// with the parameter that receives the requested count standing for it
+		var countParam *ssa.Parameter
+		if loop == nil {
+			outer := fn
+			allInstrs(outer, func(in ssa.Instruction) {
+				call, ok := in.(*ssa.Call)
+				if !ok || loop != nil {
+					return
+				}
+				h := call.Call.StaticCallee()
+				if h == nil || !c.inModule(h) || c.PkgOf(h) != "engine/pool" || len(h.Blocks) == 0 {
+					return
+				}
+				var hl map[*ssa.BasicBlock]bool
+				allInstrs(h, func(hin ssa.Instruction) {
+					if op, ok := condOpOf(hin); ok && op.Kind == "Broadcast" {
+						if scc := sccOf(hin.Block()); scc != nil {
+							hl = scc
+						}
+					}
+				})
+				if hl == nil {
+					return
+				}
+				args := call.Call.Args
+				for i, a := range args {
+					if i < len(h.Params) && isCountParam(a, outer, nil) {
+						countParam = h.Params[i]
+					}
+				}
+				if sp.name == "SetWorkerCount" && countParam == nil {
+					return
+				}
+				loop, fn = hl, h
+			})
+		}
 		if loop == nil {
 			r.Undecide("R09d: no polling loop (re-broadcasting) found in %s", key)
 			continue
@@ -675,9 +712,9 @@ func c09ExitConditions(c *Ctx, r *Result) {
 				allIdle = append(allIdle, pc)
 			case isQ(bo.X, "tasks") && isC && k == 0:
 				noTasks = append(noTasks, pc)
-			case isQ(bo.X, "workers") && len(fn.Params) > 1 && stripNumConv(bo.Y) != nil && isCountParam(bo.Y, fn):
+			case isQ(bo.X, "workers") && len(fn.Params) > 1 && stripNumConv(bo.Y) != nil && isCountParam(bo.Y, fn, countParam):
 				countReached = append(countReached, pc)
-			case isQ(bo.Y, "workers") && isCountParam(bo.X, fn):
+			case isQ(bo.Y, "workers") && isCountParam(bo.X, fn, countParam):
 				countReached = append(countReached, pc)
 			}
 		})
@@ -867,8 +904,11 @@ func c09ExitConditions(c *Ctx, r *Result) {
 	r.Floor("R09d-snapshot", nSnap, 2)
 }
 
-func isCountParam(v ssa.Value, fn *ssa.Function) bool {
+func isCountParam(v ssa.Value, fn *ssa.Function, standIn *ssa.Parameter) bool {
 	v = unspill(stripNumConv(v))
+	if standIn != nil {
+		return v == ssa.Value(standIn)
+	}
 	// the count parameter may be clamped (`if count < 0 { count = 0 }`): a phi of the parameter and a constant
 	if p, ok := v.(*ssa.Parameter); ok {
 		return p.Parent() == fn && p.Name() == "count"
